@@ -1,0 +1,78 @@
+/*
+ * Copyright 2025 The RuleGo Authors.
+ *
+ * Licensed under the Apache License, Version 2.0 (the "License");
+ * you may not use this file except in compliance with the License.
+ * You may obtain a copy of the License at
+ *
+ *     http://www.apache.org/licenses/LICENSE-2.0
+ *
+ * Unless required by applicable law or agreed to in writing, software
+ * distributed under the License is distributed on an "AS IS" BASIS,
+ * WITHOUT WARRANTIES OR CONDITIONS OF ANY KIND, either express or implied.
+ * See the License for the specific language governing permissions and
+ * limitations under the License.
+ */
+
+package e2e
+
+import (
+	"testing"
+	"time"
+
+	"github.com/rulego/streamsql"
+	"github.com/stretchr/testify/assert"
+	"github.com/stretchr/testify/require"
+)
+
+// runGlobalWindowExpr runs sql over three rows of group "b" (v = 1, 2, 3 and
+// w = 5) and returns the single result the query is expected to fire.
+func runGlobalWindowExpr(t *testing.T, sql string) map[string]any {
+	t.Helper()
+	ssql := streamsql.New()
+	defer ssql.Stop()
+	require.NoError(t, ssql.Execute(sql))
+
+	ch := make(chan []map[string]any, 4)
+	ssql.AddSink(func(results []map[string]any) { ch <- results })
+
+	for v := 1; v <= 3; v++ {
+		ssql.Emit(map[string]any{"k": "b", "v": v, "w": 5})
+	}
+	select {
+	case res := <-ch:
+		require.Len(t, res, 1)
+		return res[0]
+	case <-time.After(5 * time.Second):
+		t.Fatalf("no result for %s", sql)
+		return nil
+	}
+}
+
+// TestGlobalWindow_AggregateOverExpression: a selected aggregate whose argument
+// is an expression aggregates the expression's value per row, as in every other
+// window, not the first column the expression mentions.
+func TestGlobalWindow_AggregateOverExpression(t *testing.T) {
+	t.Parallel()
+	got := runGlobalWindowExpr(t, `
+        SELECT k, sum(v*2) AS s, sum(v + w) AS sw, avg(v*2) AS a, max(v - w) AS m, sum(v) AS plain
+        FROM stream
+        GROUP BY k, GLOBAL WINDOW TRIGGER WHEN count(*) >= 3`)
+	assert.Equal(t, "b", got["k"])
+	assert.EqualValues(t, 12, got["s"])
+	assert.EqualValues(t, 21, got["sw"])
+	assert.EqualValues(t, 4, got["a"])
+	assert.EqualValues(t, -2, got["m"])
+	assert.EqualValues(t, 6, got["plain"])
+}
+
+// TestGlobalWindow_ExpressionAggregateIsNotThePlainOne: sum(v) in TRIGGER WHEN
+// is its own aggregate next to a selected sum(v*2).
+func TestGlobalWindow_ExpressionAggregateIsNotThePlainOne(t *testing.T) {
+	t.Parallel()
+	got := runGlobalWindowExpr(t, `
+        SELECT k, sum(v*2) AS s
+        FROM stream
+        GROUP BY k, GLOBAL WINDOW TRIGGER WHEN sum(v) >= 6`)
+	assert.EqualValues(t, 12, got["s"])
+}
